@@ -278,7 +278,14 @@ impl EventLog {
     pub fn create(dir: &Path, shard: usize) -> EventLog {
         let p = dir.join(format!("log-{shard:03}.jsonl"));
         EventLog {
-            w: BufWriter::new(File::create(p).expect("create event log")),
+            // append: a driver may run several sharded phases into the same (fresh) out dir
+            w: BufWriter::new(
+                std::fs::OpenOptions::new()
+                    .create(true)
+                    .append(true)
+                    .open(p)
+                    .expect("create event log"),
+            ),
             n: 0,
         }
     }
